@@ -172,6 +172,14 @@ class Prop(common.PropertyCheck):
                 'events': [[1], [2]], 'extra': [['K1', 'v1']], 'stext': None, 'empty_stext': True,
                 'analysis': [['GATE%d' % j, 'a%d' % j] for j in range(1 + i % 3)], 'analysis_leading': i % 2 == 0, 'raw_analysis': None,
                 'analysis_placement': ['header', 'text'][(i // 2) % 2], 'order': 'TDA', 'text_trailer': '', 'pad_data': 0}}
+        # counts and offsets padded with blanks (writers that patch them in place): the keyword dictionary returns them as written
+        for i in range(self.budget(8, 40)):
+            d = [47, 124, 12, 33][i % 4]
+            yield {'k': 'file', 'spec': {
+                'version': ['FCS3.0', 'FCS3.1', 'FCS2.0'][i % 3], 'delim': chr(d), 'datatype': 'I', 'byteord': '1,2,3,4', 'widths': [8], 'ranges': [256],
+                'events': [[1], [2], [3]], 'extra': [['NOTE', '  padded value   ']], 'stext': None, 'analysis': None, 'raw_analysis': None,
+                'tot': ['3      ', '     3', ' 3 '][i % 3], 'par': ['1   ', ' 1', '1'][i % 3], 'nextdata': ['0   ', '0'][i % 2], 'offset_style': ['blank_right', 'blank_left', None][i % 3],
+                'order': 'TDA', 'text_trailer': '', 'pad_data': 0}}
         # line breaks: CR / LF are ordinary characters (also right after a delimiter, at the start of a keyword or value, and as the delimiter)
         for _ in range(self.budget(1200, 12000)):
             d = rng.choice([47, 124, 10, 13, 47, 33])
